@@ -537,7 +537,8 @@ impl<'a> Parse<'a> for ResultList<'a> {
         if Type::peek(&mut lookahead) {
             Ok(Self::Scalar(Parse::parse(lexer)?))
         } else {
-            Ok(Self::Empty)
+            // A result list is only parsed after `->`, which must be followed by a type
+            Err(lookahead.error())
         }
     }
 }
@@ -998,6 +999,11 @@ impl<'a> Parse<'a> for Use<'a> {
         let path = Parse::parse(lexer)?;
         parse_token(lexer, Token::Dot)?;
         parse_token(lexer, Token::OpenBrace)?;
+        // At least one item is required
+        let mut lookahead = Lookahead::new(lexer);
+        if !UseItem::peek(&mut lookahead) {
+            return Err(lookahead.error());
+        }
         let items = parse_delimited(lexer, Token::CloseBrace, true)?;
         parse_token(lexer, Token::CloseBrace)?;
         parse_token(lexer, Token::Semicolon)?;
@@ -1339,6 +1345,11 @@ impl<'a> Parse<'a> for WorldInclude<'a> {
         let world = Parse::parse(lexer)?;
         let with = parse_optional(lexer, Token::WithKeyword, |lexer| {
             parse_token(lexer, Token::OpenBrace)?;
+            // At least one item is required
+            let mut lookahead = Lookahead::new(lexer);
+            if !WorldIncludeItem::peek(&mut lookahead) {
+                return Err(lookahead.error());
+            }
             let items = parse_delimited(lexer, Token::CloseBrace, true)?;
             parse_token(lexer, Token::CloseBrace)?;
             Ok(items)
